@@ -20,11 +20,11 @@ THOROUGH = [(["delay", "delay_abs", "timestamp", "time_interval"], dict(MaxLen=4
             (["delay_with_mapper"], dict(MaxLen=3, MaxT=3, SpecTs={0, 2}, Hz=7)),
             (["delay_with_mapper_sub"], dict(MaxLen=2, MaxT=3, SpecTs={0, 2}, Hz=7)),
             (["delay", "delay_abs", "delay_subscription", "delay_subscription_abs", "delay_with_mapper", "delay_with_mapper_sub"],
-             dict(MaxLen=2, MaxT=2, Ds={0, 1, 2}, SpecTs={0, 2}, Hz=6, DispLen=2,
+             dict(MaxLen=2, MaxT=2, Ds={0, 1, 2}, SpecTs={0, 2}, Hz=6, DispLen=2, Small={"delay_with_mapper_sub"}, MaxLenS=1, MaxTS=2,
                   DispOps={"delay", "delay_abs", "delay_subscription", "delay_subscription_abs", "delay_with_mapper", "delay_with_mapper_sub"})),
             # a cold source that notifies at its very subscription instant
             (["delay", "delay_abs", "timestamp", "time_interval", "delay_subscription", "delay_subscription_abs", "delay_with_mapper",
-              "delay_with_mapper_sub"], dict(Lo=0, MaxLen=2, MaxT=2, SpecTs={0, 1}, Hz=6))]
+              "delay_with_mapper_sub"], dict(Lo=0, MaxLen=2, MaxT=2, SpecTs={0, 1}, Hz=6, Small={"delay_with_mapper_sub"}, MaxLenS=1, MaxTS=2))]
 
 # beyond the exhaustive bounds: sampled timelines (one resolution of the ties per sample - only tie-free samples are judged)
 SIM = (["delay", "delay_abs", "delay_subscription", "delay_subscription_abs", "timestamp", "time_interval"],
